@@ -205,6 +205,7 @@ def run(rep):
             for g in sorted(gens):
                 n_d += 1
                 if g in kills:
+                    rep.ok('C19.d.stdin-closed', f'stdin-handed-on:{fn}', body.where(g), f'_{L} is moved on (or dropped) in the block that defines it')
                     continue
                 succ = [x for x in body.succ(g)] if hasattr(body, 'succ') else None
                 r = body.reachable_from([g], avoid=kills)
